@@ -8,7 +8,7 @@ recorded outcomes are validated by TLC (RegistryTrace): accept iff registered un
 ValueError.  Candidates = registered names + near-misses (case changes, added whitespace, prefixes, extensions, "").
 
 Project half.  tla/Project.tla: abstract file system, Dedup (first-seen, no empties) and Sanitize (env name) with
-their laws checked by TLC over all 341 library lists of length <= 4 and every registered board id; TLC emits the
+their laws checked by TLC over all 2801 library lists (7 names, three of them with braces) of length <= 4 and every registered board id; TLC emits the
 library lists;  the REAL write_project runs in a fresh sandbox per case (every board id, generated port strings, all
 library lists, sources incl. non-ASCII / no trailing newline, four pre-states of the directory, rejected pairs) and
 what is read back - bytes of src/main.cpp, platformio.ini through configparser.ConfigParser(interpolation=None),
@@ -291,8 +291,8 @@ def project_gen(regfile):
     gen = run_tlc("ProjectGen", cfg, env={"REG_FILE": str(regfile)}, workers=1, timeout=600).need_ok()
     rows = [o for o in gen.json if isinstance(o, dict) and "libs" in o and "expect" in o]
     liblists = sorted((r["libs"] for r in rows), key=lambda q: (len(q), q))
-    if len(liblists) != 341:
-        raise MachineryError(f"ProjectGen: expected 341 library lists, got {len(liblists)}")
+    if len(liblists) != 2801:          # 7 names (three of them with braces), lists of length <= 4
+        raise MachineryError(f"ProjectGen: expected 2801 library lists, got {len(liblists)}")
     return gen, liblists
 
 
@@ -346,7 +346,7 @@ def check(run) -> None:
     finally:
         for b in bgs:
             b.t.join()
-    run.add_tlc(bg_proj.join(), "ProjectMC: Dedup laws over 341 library lists, Sanitize laws over every registered id, "
+    run.add_tlc(bg_proj.join(), "ProjectMC: Dedup laws over 2801 library lists, Sanitize laws over every registered id, "
                                 "abstract file system machine (RoundTrip, OtherDirectoriesUntouched, RejectedWritesNothing, NoStaleState)")
 
 
